@@ -513,6 +513,11 @@ func VerifyAccess(ctx context.Context, be backend.Backend, opts AccessOptions) e
 }
 
 func VerifyObjectCopyAccess(ctx context.Context, be backend.Backend, copySource string, opts AccessOptions) error {
+	// a copy writes its destination: in read-only mode it is refused for
+	// everybody, before the root/admin shortcut (as in VerifyAccess)
+	if opts.Readonly {
+		return s3err.GetAPIError(s3err.ErrAccessDenied)
+	}
 	if opts.IsRoot {
 		return nil
 	}
